@@ -16,7 +16,7 @@ RULE = ("tx.process(json, key) events: kind rule, unsigned payload and signed by
         "spellings; distinct = distinct (document, key); non-trivial = signed bytes compared and sender recovered")
 REQUIRED = (["%s-parity%d" % (k, p) for k in txgen.KINDS for p in (0, 1)] + ["legacy-nochain-parity0", "legacy-nochain-parity1",
             "to-absent", "to-null", "to-present", "al-empty", "al-addr-noslots", "al-multi", "al-duplicate", "data-0", "data-1",
-            "data-2..55", "data-56..255", "data-256..65535", "only-one-fee-field-rejected", "missing-field-rejected", "decoy-keys-ignored", "kind-key-null-rejected", "access-list-without-chain-id-rejected",
+            "data-2..55", "data-56..255", "data-256..65535", "only-one-fee-field-rejected", "missing-field-rejected", "decoy-keys-judged", "kind-key-null-rejected", "access-list-without-chain-id-rejected",
             "1559-without-accesslist-key"])
 
 
@@ -76,7 +76,7 @@ def judge_tx(case, obs):
         if xm.get("decoys"):
             # the properties do not oblige the tool to accept unknown keys; if it does, they must not change anything
             v.nontrivial = False
-            return v.bucket("decoy-keys-rejected")
+            return v.bucket("decoy-keys-rejected").bucket("decoy-keys-judged")
         return v.bad("C06/%s/rejected" % cls, "well-formed %s transaction rejected: %s" % (tx["kind"], o.get("err")))
     x = int(case["steps"][0]["lib"]["secret"], 16)
     if not check_signed(v, cls, tx, o["ok"], x):
@@ -102,7 +102,7 @@ def judge_tx(case, obs):
             v.bucket("1559-without-accesslist-key")
     v.bucket("data-" + txgen.size_class(len(tx["data"])))
     if xm.get("decoys"):
-        v.bucket("decoy-keys-ignored")
+        v.bucket("decoy-keys-ignored").bucket("decoy-keys-judged")
     return v
 
 
